@@ -259,6 +259,30 @@ def rule_X4(P, rep):
     rep.need(n >= 40, "only %d functions using lock primitives were analysed" % n)
 
 
+X5_DOC = ("counters and generation words keep at least the width of int (a count of nested locks, readers, waiters, queued or blocked "
+          "units that wraps at 255 or 65535 makes the object look free / empty while it is not)")
+
+
+def rule_widths(P, rep, fields, rule="X5"):
+    """fields: [(record, field)]; each must exist in this configuration and be >= 4 bytes wide."""
+    n = 0
+    for rec, fld in fields:
+        r = P.records.get(rec)
+        if r is None:
+            continue
+        fs = [x for x in r["fields"] if x["n"] == fld]
+        if not fs or "sz" not in fs[0]:
+            continue
+        n += 1
+        rep.ob(rule, "%s::%s is at least as wide as int" % (rec, fld), fs[0]["sz"] >= 4,
+               "the field is %d byte(s) wide (%s): the count wraps" % (fs[0]["sz"], fs[0]["t"]), loc=r.get("file", ""),
+               site="width/%s::%s" % (rec, fld))
+    if n == 0 and getattr(P, "variant", "default") != "default":
+        rep.skip(rule, "the fields %s do not exist in this configuration" % (fields,))
+        return
+    rep.need(n >= 1, "none of the counter fields %s exists" % (fields,))
+
+
 def borrow(rep, P, rule_fn, label, only=None, **kw):
     """Evaluate a sibling property's rule and record its obligations under this property's `label`
     (properties overlap: the same structural clause can be a necessary condition of several)."""
